@@ -5,7 +5,7 @@ closures, Enum(tag, fields), Ref(cell, path) for references and raw pointers, py
 Vec / slices / arrays of concrete length, Opaque for anything not modelled.
 Memory: one dict per path; locals live in cells named '<frame id>:_N', obligation objects in cells
 named '$name'; '$state' is the obligation's monitor state (events, abstract world)."""
-import re, sys, time
+import os, re, sys, time
 from z3 import (BitVec, BitVecVal, Bool, BoolVal, And, Or, Not, If, ULT, ULE, UGT, UGE, URem, UDiv, LShR, ZeroExt, SignExt,
                 Extract, Solver, sat, unsat, unknown, simplify, is_bv, is_bool, is_bv_value, is_true, is_false, BVAddNoOverflow,
                 BVMulNoOverflow, BVSubNoUnderflow, Concat)
@@ -517,7 +517,7 @@ class Exec:
                 if not self.opaque_calls_ok: raise
                 self.opaque_calls.add(callee); return cont(Opaque(callee), env, pc)
             except Exception as ex:
-                if self.opaque_calls_ok:
+                if self.opaque_calls_ok and not os.environ.get('MIRSE_DEBUG'):
                     self.opaque_calls.add(callee); return cont(Opaque(callee), env, pc)
                 raise Inconclusive('summary %s failed in %s: %r (vals %s)' % (key, where[-60:], ex, [str(v)[:60] for v in vals]))
             if isinstance(outs, Delegate): return self.delegate(outs, env, pc, cont)
